@@ -7,17 +7,19 @@ from rules.storefacts import field_of
 from bufmodel import BUF_MODELS, buf_state, buf_len
 
 LEVEL_TEXT = (
-    "Static byte accounting (affine dataflow on the connection buffer, no execution): R1 parse_header consumes exactly "
-    "the nine header fields at offsets 0,1,2,4,5,6,8,12,16 (24 bytes = the constant its length guard uses) and assigns "
-    "them in protocol order; R2 on every path of Decoder::decode that returns a request (other than ItemTooLarge) the "
-    "number of bytes removed from the connection buffer is the affine expression 24 + body_length (resp. body_length "
-    "when the header was consumed by an earlier call) — never fewer, never bytes of the next request; R3 Ok(None) means "
-    "'need more bytes' and nothing else: it is returned only under a comparison with the buffered length, consumes "
-    "nothing but the header, whose parse state is then recorded, and re-entry with the header parsed does not read a "
-    "header again; R4 every completed frame resets the parser state; R5 the connection layer hands the buffer only to "
-    "decode / read_buf / the oversized-item arm, and maps EOF with an empty buffer to a clean end, EOF with residue to "
-    "an error. Not decided: kernel/tokio read semantics; equality of responses for equal request sequences (follows "
-    "from R1-R5 plus a deterministic handler)."
+    'Static byte accounting (affine dataflow on the connection buffer, no execution; the rules are evaluated on the '
+    "public Decoder::decode with the codec's private helpers inlined): R1 reading a header consumes exactly 24 bytes "
+    'and assigns the nine protocol fields from offsets 0,1,2,4,5,6,8,12,16 of the stream — whether read by get_uN '
+    'calls or through a byte view that is indexed and advanced past; the length guard uses the same 24; R2 on every '
+    'path of decode that returns a request (other than ItemTooLarge) the number of bytes removed from the connection '
+    'buffer is the affine expression 24 + body_length (resp. body_length when the header was consumed by an earlier '
+    "call) — never fewer, never bytes of the next request; R3 Ok(None) means 'need more bytes' and nothing else: it "
+    'is returned only under a comparison with the buffered length, consumes nothing but the header, whose parse state '
+    'is then recorded, and re-entry with the header parsed does not read a header again; R4 every completed frame '
+    'resets the parser state; R5 the connection layer hands the buffer only to decode / read_buf / the oversized-item '
+    'arm, and maps EOF with an empty buffer to a clean end, EOF with residue to an error. Not decided: kernel/tokio '
+    'read semantics; equality of responses for equal request sequences (follows from R1-R5 plus a deterministic '
+    'handler).'
 )
 ASSUMPTIONS = [
     "bytes::{Buf,BytesMut} semantic table (analysis/bufmodel.py): get_uN consume N bytes, split_to/advance(n) consume n, len = bytes buffered",
